@@ -62,7 +62,7 @@ def parent(x):
     return child(x)
 
 
-@task(namespace="{ns}")
+@task(namespace="{ns}"{copt})
 def child(x):
     # version {vC}
     return grand(x + {cadd})
@@ -83,8 +83,17 @@ def fresh_value(vers: dict) -> str:
 # ------------------------------------------------------------------------------------------------
 # workload module and vocabulary
 # ------------------------------------------------------------------------------------------------
+# workload variants: 0 = the chain as above; 1 = child declared prov=False (inherited by grand): the
+# two lower jobs record nothing and record_call_node(parent) records the subtree tasks itself
+VARIANTS = (0, 1)
+VAR_NS = {0: "bkw", 1: "bkn"}
+VAR_TEXT = {0: "chain", 1: "child+grandchild prov=False"}
+
+
 class Workload:
-    def __init__(self, moddir: Path, ns: str = "bkw"):
+    def __init__(self, moddir: Path, var: int = 0):
+        self.var = var
+        ns = VAR_NS[var]
         self.ns = ns
         self.modname = f"vwl_{ns}"
         self.dir = Path(moddir)
@@ -94,7 +103,8 @@ class Workload:
         self._vocab: Optional[dict] = None
 
     def load(self, vers: dict):
-        src = SRC.format(ns=self.ns, vP=vers["P"], vC=vers["C"], vG=vers["G"],
+        src = SRC.format(ns=self.ns, copt=", prov=False" if self.var == 1 else "",
+                         vP=vers["P"], vC=vers["C"], vG=vers["G"],
                          cadd=10 + (vers["C"] - 1) * 100, gadd=1 + (vers["G"] - 1) * 1000)
         self.path.write_text(src)
         linecache.checkcache(str(self.path))
@@ -393,11 +403,11 @@ def open_backend(path: Path):
 # one run, in this process
 # ------------------------------------------------------------------------------------------------
 def run_here(dbpath: Path, moddir: Path, vers: dict, runno: int, inject: Optional[dict],
-             crash_file: Optional[Path] = None) -> dict:
-    wl = Workload(Path(moddir) / f"p{os.getpid()}")  # children run in parallel: private module file
+             crash_file: Optional[Path] = None, var: int = 0) -> dict:
+    wl = Workload(Path(moddir) / f"p{os.getpid()}", var)  # children run in parallel: private module file
     mod = wl.load(vers)
     b = open_backend(dbpath)
-    rec_out: dict = {"run": runno, "vers": dict(vers), "inject": inject or {"kind": "none"}}
+    rec_out: dict = {"run": runno, "vers": dict(vers), "inject": inject or {"kind": "none"}, "var": var}
 
     def on_crash(r: Recorder):
         if crash_file is not None:
@@ -492,8 +502,8 @@ class Lab:
     def __init__(self, scratch: Path):
         self.scratch = Path(scratch)
         self.moddir = self.scratch / "mods"
-        self.wl = Workload(self.moddir)
-        self.voc = self.wl.vocab()
+        self.wl = {v: Workload(self.moddir, v) for v in VARIANTS}
+        self.voc = {v: self.wl[v].vocab() for v in VARIANTS}
         simloop.quiet_logs()
         self.n = 0
 
@@ -507,32 +517,33 @@ class Lab:
         shutil.copyfile(src, dst)
         return dst
 
-    def start_crash_run(self, dbpath: Path, vers: dict, runno: int, inject: dict) -> dict:
+    def start_crash_run(self, dbpath: Path, vers: dict, runno: int, inject: dict, var: int = 0) -> dict:
         """A real process death: forked child, os._exit inside the commit.  Returns a handle for
         finish_crash_run (several children run in parallel)."""
-        pre = project(dbpath, self.voc)
+        pre = project(dbpath, self.voc[var])
         cf, rf = dbpath.with_suffix(".crash.json"), dbpath.with_suffix(".result.pkl")
-        pid = spawn_child(run_here, dbpath, self.moddir, vers, runno, inject, cf, result_file=rf)
-        return {"pid": pid, "cf": cf, "rf": rf, "pre": pre, "db": dbpath, "vers": vers}
+        pid = spawn_child(run_here, dbpath, self.moddir, vers, runno, inject, cf, var, result_file=rf)
+        return {"pid": pid, "cf": cf, "rf": rf, "pre": pre, "db": dbpath, "vers": vers, "var": var}
 
     def finish_crash_run(self, h: dict) -> dict:
         rec = wait_child(h["pid"], h["rf"], h["cf"])
         recover(h["db"])
-        rec["pre"], rec["post"] = h["pre"], project(h["db"], self.voc)
+        rec["pre"], rec["post"] = h["pre"], project(h["db"], self.voc[h["var"]])
+        rec["var"] = h["var"]
         rec["fresh"] = fresh_value(h["vers"])
         return rec
 
-    def run(self, dbpath: Path, vers: dict, runno: int, inject: Optional[dict] = None) -> dict:
+    def run(self, dbpath: Path, vers: dict, runno: int, inject: Optional[dict] = None, var: int = 0) -> dict:
         """One run; returns the run record with abstract pre/post states."""
         if (inject or {}).get("kind") == "crash":
-            return self.finish_crash_run(self.start_crash_run(dbpath, vers, runno, inject))
-        pre = project(dbpath, self.voc)
+            return self.finish_crash_run(self.start_crash_run(dbpath, vers, runno, inject, var))
+        pre = project(dbpath, self.voc[var])
         if True:
             # everything else runs in this (worker) process: a fork per run costs far more than the
             # run itself on this machine; each run gets a fresh module, backend and scheduler
-            rec = run_here(dbpath, self.moddir, vers, runno, inject, None)
+            rec = run_here(dbpath, self.moddir, vers, runno, inject, None, var)
         recover(dbpath)
-        post = project(dbpath, self.voc)
+        post = project(dbpath, self.voc[var])
         rec["pre"], rec["post"] = pre, post
         rec["fresh"] = fresh_value(vers)
         return rec
@@ -566,7 +577,7 @@ def trace_record(rec: dict, role: str) -> dict:
             "reg": [rec["vers"][t] for t in TASKS], "no": rec["run"],
             "inj": {"kind": inj.get("kind", "none"), "at": inj.get("at", 0),
                     "site": site if inj.get("kind") == "crash" else ""},
-            "pts": pts, "out": out, "role": role, "fresh": rec["fresh"]}
+            "pts": pts, "out": out, "role": role, "fresh": rec["fresh"], "var": rec.get("var", 0)}
 
 
 # ------------------------------------------------------------------------------------------------
@@ -597,13 +608,28 @@ def run_scenario(job: dict) -> list[dict]:
     lab = _LAB
     assert lab is not None
     inj = job.get("inj")
+    var = job.get("var", 0)
     out: list[dict] = []
     if job.get("_pre") is not None:
         db1, r1 = job["_pre"]
     else:
         db1 = lab.new_db("h")
-        r1 = lab.run(db1, V1, 1, inj)
+        r1 = lab.run(db1, V1, 1, inj, var)
     out.append({"hist": [["run", 0]], "role": role_of(inj, 1), "rec": r1})
+    seen = job.get("_seen")
+    if seen is not None:
+        # quick tier: the recovery tree is executed once per distinct abstract state the recording run
+        # leaves behind (most retried faults leave exactly the fault-free rows; a crash after commit k
+        # and one before commit k + 1 leave the same rows)
+        k = (var, bool(job.get("with_import")) and r1["outcome"][0] == "ok",
+             json.dumps(tables_only(r1["post"]), sort_keys=True))
+        if k in seen:
+            lab.drop(db1)
+            for e in out:
+                e["scn"], e["var"], e["inj"] = job["id"], var, inj or {"kind": "none"}
+                e["tree"] = seen[k]
+            return out
+        seen[k] = job["id"]
 
     def recover(db: Path, hist: list, vers: dict, runno: int, edited: int):
         edits = job["edits2"] if runno == 2 else job["edits3"]
@@ -614,7 +640,7 @@ def run_scenario(job: dict) -> list[dict]:
                 continue
             d = lab.copy_db(db, "r")
             v = toggle(vers, e)
-            r = lab.run(d, v, runno)
+            r = lab.run(d, v, runno, None, var)
             h = hist + [["run", e]]
             out.append({"hist": h, "role": "recovery", "rec": r})
             if runno < 3:
@@ -623,16 +649,17 @@ def run_scenario(job: dict) -> list[dict]:
 
     recover(db1, [["run", 0]], V1, 2, 0)
     if job.get("with_import") and r1["outcome"][0] == "ok":
-        pre = project(db1, lab.voc)
+        pre = project(db1, lab.voc[var])
         dbi = lab.import_into_new(db1, "i")
-        post = project(dbi, lab.voc)
+        post = project(dbi, lab.voc[var])
         h = [["run", 0], ["import", 0]]
-        out.append({"hist": h, "role": "import", "imp": {"pre": pre, "post": post}})
+        out.append({"hist": h, "role": "import", "imp": {"pre": pre, "post": post, "var": var}})
         recover(dbi, h, V1, 2, 0)
         lab.drop(dbi)
     lab.drop(db1)
     for e in out:
         e["scn"] = job["id"]
+        e["var"] = var
         e["inj"] = inj or {"kind": "none"}
     return out
 
@@ -640,10 +667,10 @@ def run_scenario(job: dict) -> list[dict]:
 def import_trace(imp: dict) -> dict:
     return {"pre": tables_only(imp["pre"]), "post": tables_only(imp["post"]), "reg": [1, 1, 1],
             "no": 1, "inj": {"kind": "none", "at": 0, "site": ""}, "pts": [], "out": ["ok", "", []],
-            "role": "import", "fresh": "r11"}
+            "role": "import", "fresh": "r11", "var": imp.get("var", 0)}
 
 
-def run_campaign(scratch: Path, jobs: list[dict], workers: int = 8) -> list[dict]:
+def run_campaign(scratch: Path, jobs: list[dict], workers: int = 8, dedup_trees: bool = False) -> list[dict]:
     """Executes the scenarios; results in job order (deterministic).  Crash recordings are real
     process deaths: they are run ahead, `workers` forked children at a time; everything else runs
     in this process (a forked child pays for every page it touches, a run in a warm process does
@@ -660,13 +687,15 @@ def run_campaign(scratch: Path, jobs: list[dict], workers: int = 8) -> list[dict
         hs = []
         for j in crash_jobs[n:n + max(1, workers)]:
             db1 = lab.new_db("h")
-            hs.append((j, db1, lab.start_crash_run(db1, V1, 1, j["inj"])))
+            hs.append((j, db1, lab.start_crash_run(db1, V1, 1, j["inj"], j.get("var", 0))))
         for j, db1, h in hs:
             pre[j["id"]] = (db1, lab.finish_crash_run(h))
     res: list[dict] = []
+    seen: Optional[dict] = {} if dedup_trees else None
     for j in jobs:
         jj = dict(j)
         jj["_pre"] = pre.get(j["id"])
+        jj["_seen"] = seen
         res.extend(run_scenario(jj))
     return res
 
